@@ -9,6 +9,7 @@
 #include <primitiv/core/device.h>
 #include <primitiv/core/functions.h>
 #include <primitiv/core/graph.h>
+#include <primitiv/core/initializer_impl.h>
 #include <primitiv/core/operator.h>
 #include <primitiv/core/operator_impl.h>
 #include <primitiv/core/parameter.h>
@@ -21,6 +22,7 @@ typedef long long i64;
 
 static std::uint32_t D = 1;
 static Device *g_dev = nullptr;
+static Device *g_dev2 = nullptr;  // a second device object of the same backend (pinit)
 static std::vector<std::pair<int, std::uint32_t>> g_log;  // (graph, oid) of user forwards
 static i64 g_rnd_pos = 0;
 static i64 g_fail_in = -1;
@@ -179,7 +181,17 @@ static std::string exec(const std::vector<std::string> &w) {
     std::vector<i64> v = parse_vec(w[2]);
     std::vector<float> f(v.begin(), v.end());
     if (op == "pgrad") params[p]->gradient().reset_by_vector(f);
-    else params[p]->value() += g_dev->new_tensor_by_vector(Shape({D}), f);
+    else params[p]->value() += params[p]->device().new_tensor_by_vector(Shape({D}), f);
+    return "ok";
+  }
+  if (op == "pinit" && w.size() == 4) {
+    // Parameter::init(shape, Initializer, device): value = constant k, gradient = 0, both on device d
+    std::uint64_t p = vh::to_u64(w[1]);
+    std::uint32_t d = vh::to_u32(w[2]);
+    if (p >= params.size() || d > 1) throw BadOp();
+    i64 k = vh::to_i64(w[3]);
+    if (k < -1000 || k > 1000) throw BadOp();
+    params[p]->init(Shape({D}), initializers::Constant(static_cast<float>(k)), d ? *g_dev2 : *g_dev);
     return "ok";
   }
   if (op == "pgradbits" && w.size() == 3) {
@@ -308,6 +320,10 @@ int main(int argc, char **argv) {
   if (argc > 1 && std::string(argv[1]) == "eigen") dev.reset(new devices::Eigen());
   else dev.reset(new devices::Naive());
   g_dev = dev.get();
+  std::unique_ptr<Device> dev2;
+  if (argc > 1 && std::string(argv[1]) == "eigen") dev2.reset(new devices::Eigen());
+  else dev2.reset(new devices::Naive());
+  g_dev2 = dev2.get();
   int rc = vh::run_lines(exec);
   nodes.clear();
   graphs.clear();
